@@ -44,7 +44,8 @@ ASSUMPTIONS = [
     're-executing sampled sequences from scratch)',
 ]
 ANCHORS = ['Table.filter', 'Table.update_ids', 'Table._index_ids', 'errcheck', 'Table.merge', 'Table.concat', 'Table.collapse', 'Table.partition', 'Table.subsample', 'Table.transform']
-REQUIRED = ['steps', 'earlier_tables_rechecked', 'refused_then_checked', 'oracle_runs', 'invariant_evaluations',
+REQUIRED = ['tables_built_from_one_matrix_object',
+            'tables_built_over_matrix_data', 'steps', 'earlier_tables_rechecked', 'refused_then_checked', 'oracle_runs', 'invariant_evaluations',
             'absent_id_probes', 'stale_id_probes', 'layout_csc_seen',
             'layout_unsorted_seen', 'empty_table_states', 'io_steps',
             'replayed_from_scratch']
@@ -798,15 +799,51 @@ def run_case(ctx, index):
                                                             'dyadic', 'neg',
                                                             'frac'],
                         md_kinds=['none', 'text', 'int', 'taxonomy'])
-    t = gen.apply_layout(ctx.biom, spec, r.choice(gen.LAYOUTS), r)
+    shared = None
+    permanent = []
+    if r.random() < .3 and spec.D.size:
+        # the caller builds two tables from one and the same matrix object
+        # (and keeps using that object): each table owns its content
+        import scipy.sparse as sp
+        kind = r.choice(['csr', 'csc', 'coo', 'ndarray', 'csr-int'])
+        shared = {'csr': sp.csr_matrix, 'csc': sp.csc_matrix,
+                  'coo': sp.coo_matrix, 'ndarray': np.array,
+                  'csr-int': lambda D: sp.csr_matrix(D.astype(np.int64))
+                  if np.all(D == np.floor(D)) else sp.csr_matrix(D)}[kind](
+                      spec.D)
+        mk = lambda: ctx.biom.Table(  # noqa: E731
+            shared, list(spec.obs_ids), list(spec.samp_ids),
+            copy.deepcopy(spec.obs_md), copy.deepcopy(spec.samp_md),
+            type=spec.type)
+        sib = mk()
+        t = mk()
+        permanent = [(snap.snap(sib), sib, 0)]
+        ctx.count('tables_built_from_one_matrix_object')
+    else:
+        t = gen.apply_layout(ctx.biom, spec, r.choice(gen.LAYOUTS), r)
     m = spec.copy()
     ever = {'observation': set(spec.obs_ids), 'sample': set(spec.samp_ids)}
     hist = {'start': spec.describe(), 'ops': []}
-    oracle(ctx, t, r, ever, hist)
+    if shared is not None:
+        hist['start'] = dict(hist['start'], built='two tables from one %s '
+                             'object' % kind)
+    if shared is None:
+        oracle(ctx, t, r, ever, hist)   # (reading may re-lay-out the matrix)
     L = r.randint(4, 25)
     alive = []          # (snapshot at the time, table) of earlier tables
     for _ in range(L):
         name = r.choice(OP_NAMES)
+        if r.random() < .12 and len(permanent) < 4:
+            # relabelling idiom: a second table over this table's matrix
+            try:
+                rel = ctx.biom.Table(
+                    t.matrix_data,
+                    ['r%d' % i for i in range(t.shape[0])],
+                    ['c%d' % i for i in range(t.shape[1])])
+                permanent.append((snap.snap(rel), rel, len(hist['ops'])))
+                ctx.count('tables_built_over_matrix_data')
+            except REFUSALS:
+                pass
         prev = t
         prev_snap = snap.snap(t)
         try:
@@ -819,7 +856,7 @@ def run_case(ctx, index):
             alive = alive[-3:]
         # tables produced earlier are still tables: they must stay coherent
         # and keep their content whatever is done to their descendants
-        for sn, old, at in alive:
+        for sn, old, at in permanent + alive:
             light_oracle(ctx, old, dict(hist), 'table before step %d' % at)
             d = snap.diff(snap.snap(old), sn)
             if d:
@@ -827,6 +864,13 @@ def run_case(ctx, index):
                                 'before step %d changed after a later step: '
                                 '%s; case=%r' % (at, '; '.join(d),
                                                  dict(hist)))
+        if shared is not None:
+            now = shared.toarray() if hasattr(shared, 'toarray') else shared
+            if now.shape != spec.D.shape or not np.array_equal(
+                    np.asarray(now, dtype=float), spec.D):
+                raise Violation('C05/callers-matrix-changed', 'the matrix '
+                                'object the tables were built from changed '
+                                'after step %r; case=%r' % (name, dict(hist)))
     fams = [OPS[o][0] for o in hist['ops']]
     ctx.case(dict(hist), len(hist['ops']) >= 2 and any(f in ID_CHANGING
                                                        for f in fams))
